@@ -933,8 +933,6 @@ class DBusObjectHandler :
         @returns: A Deferred to the L{RemoteDBusObject} instance
         """
 
-        weak_id = (busName, objectPath, interfaces)
-
         need_introspection = False
         required_interfaces = set()
 
@@ -978,7 +976,10 @@ class DBusObjectHandler :
 
             prox = RemoteDBusObject(self, busName, objectPath, ifaces)
 
-            self._weakProxies[weak_id] = prox
+            # One slot per proxy: two proxies of the same remote object must
+            # both be told when the connection is lost (and a list of
+            # interface names is not hashable).
+            self._weakProxies[id(prox)] = prox
 
             return prox
 
